@@ -80,9 +80,9 @@ Rnd(lo, hi) == I(RandomElement(lo..hi))
 Big(a, b) == NumAdd(NumMul(I(a), I(1000000)), I(b))          \* a * 10^6 + b, exact
 WideMs   == {Big(9223372, 36854), Big(9223372, 36855), Big(10000000, 0), Big(-10000000, 0), Big(-9223372, -36855), MaxT, NumNeg(MaxT),
              NumAdd(MaxT, I(1)), NumMul(I(4000), Big(1000000, 0)), NumSub(MaxT, I(946684800)), NumAdd(Big(9223372, 36854), Half)}
-WideSec  == {Big(8640000, 0), Big(-8640000, 0), Big(8640000, 1), Big(9223, 372037)}
-WideMin  == {Big(144000, 0), Big(-144000, 0), Big(144000, 1)}
-WideHour == {Big(2400, 0), Big(-2400, 0), Big(2400, 1), Canon(FALSE, <<1>>, 31), Canon(FALSE, <<1>>, 32)}
+WideSec  == {Big(8640000, 0), Big(-8640000, 0), Big(8640000, 1), Big(9223, 372037), Big(10800000, 1), Big(-10800000, -1)}
+WideMin  == {Big(144000, 0), Big(-144000, 0), Big(144000, 1), Big(180000, 1), Big(-180000, -1)}
+WideHour == {Big(2400, 0), Big(-2400, 0), Big(2400, 1), Canon(FALSE, <<1>>, 31), Canon(FALSE, <<1>>, 32), Big(3000, 1), Big(-3000, -1)}
 WideDay  == {I(100000001), I(100000002), I(-99999999), I(-100000000), I(1000000000)}
 WideAt(p) == CASE p = 3 -> WideDay [] p = 4 -> WideHour [] p = 5 -> WideMin [] p = 6 -> WideSec [] p = 7 -> WideMs
 Epoch7 == <<I(1970), I(0), I(1), I(0), I(0), I(0), I(0)>>
@@ -92,6 +92,8 @@ WideTuples ==
     \cup {<<I(275760), I(8), I(13), I(0), I(0), I(0), NumNeg(w)>> : w \in WideMs}
     \cup {<<I(1970), I(0), I(-99999999), h, I(0), I(0), I(1)>> : h \in WideHour}              \* MakeTime above 2^53, result in range
     \cup {<<I(1970), I(0), I(-99999999), I(0), m, I(0), I(1)>> : m \in WideMin}
+    \cup {<<I(1970), I(0), I(-99999999), I(0), I(0), x, I(1)>> : x \in WideSec}
+    \cup {<<I(1970), I(0), I(100000001), h, I(0), I(0), I(-1)>> : h \in WideHour}
 RandomTuple(i) ==
     <<IF i % 3 = 0 THEN Rnd(-1000000, 1000000) ELSE Rnd(-280000, 280000),
       IF i % 2 = 0 THEN Rnd(-1000000, 1000000) ELSE Rnd(-24, 36),
